@@ -238,6 +238,10 @@ type c16ProbeT struct {
 	LogAtReturn []string
 	Returned    bool
 	HasData     bool
+	// LogAtEnd is the hook log after everything the run started has finished;
+	// Settled says that this is so (nothing blocked or leaked, one execution only)
+	LogAtEnd []string
+	Settled  bool
 }
 
 func parseDoc(q string) (*graphqlDoc, error) {
@@ -443,6 +447,12 @@ func (c16) Run(t TestingT, scn json.RawMessage, tape *Tape) *Outcome {
 		// request started has finished
 		if returned != nil && s.finished["c1"] {
 			late = MarshalResult(returned)
+		}
+		if c16Probe != nil && c16Probe.Run != nil {
+			c16Probe.Run.mu.Lock()
+			c16Probe.LogAtEnd = append([]string(nil), c16Probe.Run.Log...)
+			c16Probe.Run.mu.Unlock()
+			c16Probe.Settled = s.finished["c1"] && !s.Stuck && !s.CapHit && len(s.Leaked) == 0 && !sc.Second && !sc.Pre && sc.Faults["R@*"] != FGoexit
 		}
 		o.FakeNanos = int64(time.Since(fakeStart))
 	})
